@@ -178,6 +178,10 @@ func lifeBinary(c *Ctx, scenario string) {
 			resp.Body.Close()
 		}
 		before := scrape()
+		for i := 0; i < 150 && before == "0/0"; i++ { // the swarm is updated after the response has been written
+			time.Sleep(20 * time.Millisecond)
+			before = scrape()
+		}
 		mBefore := metricsUp()
 		// reload: the store is kept
 		_ = cmd.Process.Signal(syscall.SIGUSR1)
